@@ -181,6 +181,11 @@ pub fn is_lua(path: &str) -> bool {
     }
 }
 
+/// `init.lua` / `init.luau`: the file that stands for its folder.
+pub fn is_module_folder_file(path: &str) -> bool {
+    matches!(file_name(path), "init.lua" | "init.luau")
+}
+
 pub fn has_extension(path: &str) -> bool {
     let name = file_name(path);
     matches!(name.rfind('.'), Some(i) if i > 0 && i + 1 < name.len())
@@ -367,17 +372,20 @@ pub fn gen_project(rng: &mut Rng, knobs: &ProjectKnobs) -> Project {
         });
     }
     let bundle = if knobs.allow_bundle && rng.chance(2, 5) {
-        Some("path".to_owned())
+        // in luau mode a module-folder file (init.lua) resolves relative requires from its
+        // parent's parent: such files simply get no requires (see `is_module_folder_file`)
+        Some(if rng.chance(1, 3) { "luau" } else { "path" }.to_owned())
     } else {
         None
     };
+    let luau = bundle.as_deref() == Some("luau");
     let mut data: Vec<(String, String)> = Vec::new();
     if bundle.is_some() {
         // acyclic requires: i may require j > i
         let count = sources.len();
         for i in 0..count {
             for j in (i + 1)..count {
-                if rng.chance(2, 5) {
+                if rng.chance(2, 5) && !(luau && is_module_folder_file(&sources[i].path)) {
                     let to = sources[j].path.clone();
                     sources[i].requires.push(to);
                 }
@@ -397,7 +405,9 @@ pub fn gen_project(rng: &mut Rng, knobs: &ProjectKnobs) -> Project {
                 let path = join(&join(&input_dir, "data"), &format!("d{}.{}", d, ext));
                 let content = corpus::render_data(*rng.pick(bodies), &format!("d{}_0", d));
                 let requirer = rng.below(sources.len());
-                sources[requirer].requires.push(path.clone());
+                if !(luau && is_module_folder_file(&sources[requirer].path)) {
+                    sources[requirer].requires.push(path.clone());
+                }
                 data.push((path, content));
             }
         }
